@@ -19,6 +19,11 @@ replace the value by 'X', replace the key by 'K'}.  Tables over the value kind (
 5^3), over len(path) parity (all 5^2), over value kind x "key is a str" (all tables with <= 2 non-default cells,
 thorough), and one program that rewrites every scalar into its own path (structures without set members only, because
 the statement does not say what the key of a set member is).  Plus the default callbacks, and research().
+Key-rewriting tables (structures without set members): value-kind tables over True / False / 'N' (int key k -> ~k, so
+the indexes of a list come back descending) / 'W' (key and value of a scalar item swapped): the key returned for an
+item of a list / tuple does not move the item.
+Twins: every container term of <= 3 nodes placed two or three times as *distinct but equal* objects (also with equal
+leaves of another type: 0 / False / 0.0) side by side and at different depths: equal is not shared.
 
 Oracles (only what the statement says)
   * remap(root, visit=P) is graph-isomorphic to a 20-line memoised recursive rebuild run with the same program:
@@ -84,6 +89,11 @@ CONTAINERS = (list, tuple, dict, set, frozenset)
 MUTABLE = (list, dict, set)
 TAGS = {'L': list, 'T': tuple, 'D': dict, 'S': set, 'F': frozenset}
 ACTIONS = ('T', 'F', 'S', 'X', 'K')      # True, False, same pair, value -> 'X', key -> 'K'
+# Key-rewriting actions beyond the constant 'K': 'N' turns an int key k into ~k (list / tuple indexes 0, 1, 2 become the
+# *descending* keys -1, -2, -3), 'W' swaps key and value of a scalar item (the new key depends on the value).  In a
+# dict the returned key is the new key; for an item of a list / tuple the recursive rebuild keeps the item's position
+# whatever key comes back.  Not run on structures with set members (what they do depends on the key of a set member).
+KEY_ACTIONS = ('T', 'F', 'N', 'W')
 
 
 class Budget(BaseException):
@@ -226,6 +236,89 @@ def shard_list(sizes, voc=0):
                 for r in range(m):
                     out.append((n, tag, s1, r, m, voc))
     return out
+
+
+# ------------------------------------------------------------------------------------------------------
+# twins: two or three *distinct but equal* containers in one structure (no object is shared).  remap recognises an
+# object it has already rebuilt by identity; equal is not identical: each copy is entered, visited under its own path
+# and rebuilt from its own leaves.  The copies may differ in the type of equal leaves (0 == False == 0.0).
+
+TWIN_UPTO = 3                                       # nodes of the repeated container
+TWIN_VARIANTS = (None, {0: False, 1: True}, {0: 0.0, 1: 1.0})
+TWIN_CONTEXTS = ('L2', 'T2', 'D2', 'L3', 'deeper2nd', 'deeper1st', 'D-deeper', 'T-deeper')
+
+
+def gen_plain(n, hashable):
+    """Terms of exactly n nodes without back-references (vocabulary 0)."""
+    tags = 'TF' if hashable else 'LTDSF'
+    if n == 1:
+        for v in LEAVES:
+            yield v
+        for tag in tags:
+            yield [tag]
+        return
+    for tag in tags:
+        for kids in _plain_kids(n - 1, hashable or tag in 'SF'):
+            if tag == 'D':
+                yield ['D'] + [[k, kid] for k, kid in zip(('a', 0, 'K'), kids)]
+            elif tag not in 'SF' or _set_order_ok(kids):
+                yield [tag] + kids
+
+
+def _plain_kids(budget, hashable):
+    if budget == 0:
+        yield []
+        return
+    for s in range(1, budget + 1):
+        for first in gen_plain(s, hashable):
+            for rest in _plain_kids(budget - s, hashable):
+                yield [first] + rest
+
+
+def _variant(spec, table):
+    if table is None:
+        return spec
+    if isinstance(spec, list):
+        if spec[0] == 'D':
+            return ['D'] + [[kv[0], _variant(kv[1], table)] for kv in spec[1:]]
+        return [spec[0]] + [_variant(k, table) for k in spec[1:]]
+    return table[spec] if type(spec) is int else spec
+
+
+def gen_twins(shard):
+    """shard = ('twin', context): every container term t of <= TWIN_UPTO nodes, its equal copies t' and t'' (leaf types
+    varied), put into the context."""
+    _VOC[:] = [LEAVES, None]
+    context = shard[1]
+    for n in range(1, TWIN_UPTO + 1):
+        for t in gen_plain(n, False):
+            if not isinstance(t, list):
+                continue
+            pairs, seen = [], set()
+            for va, vb in (((None, None), (TWIN_VARIANTS[1], TWIN_VARIANTS[2])) if context == 'L3'
+                           else [(None, vb) for vb in TWIN_VARIANTS]):
+                ab = (_variant(t, va), _variant(t, vb))
+                if repr(ab) not in seen:            # repr: [0] == [False] == [0.0]
+                    seen.add(repr(ab))
+                    pairs.append(ab)
+            for a, b in pairs:
+                if True:
+                    if context == 'L2':
+                        yield ['L', t, b]
+                    elif context == 'T2':
+                        yield ['T', t, b]
+                    elif context == 'D2':
+                        yield ['D', ['a', t], ['K', b]]
+                    elif context == 'L3':
+                        yield ['L', t, a, b]
+                    elif context == 'deeper2nd':
+                        yield ['L', t, ['L', b]]
+                    elif context == 'deeper1st':
+                        yield ['L', ['L', t], b]
+                    elif context == 'D-deeper':
+                        yield ['D', ['a', t], [0, ['T', b]]]
+                    else:
+                        yield ['T', t, ['T', b]]
 
 
 # ======================================================================================================
@@ -399,6 +492,10 @@ def make_visit(prog):
             return (key, value)
         if a == 'X':
             return (key, 'X')
+        if a == 'N':
+            return (~key, value) if type(key) is int else (key, value)
+        if a == 'W':
+            return True if isinstance(value, CONTAINERS) else (value, key)
         return ('K', value)
 
     def tick():
@@ -469,6 +566,17 @@ def _tables(kind):
     return out
 
 
+def _key_tables():
+    """Value-kind tables over the key-rewriting actions: container -> True / 'N', the two scalar kinds -> True, False,
+    'N', 'W'; at least one cell rewrites a key (the others are among the basic tables)."""
+    out = []
+    for acts in itertools.product(('T', 'N'), KEY_ACTIONS, KEY_ACTIONS):
+        if 'N' in acts or 'W' in acts:
+            out.append({'kind': 'vk', 'acts': list(acts)})
+    return out
+
+
+KEY_TABLES = _key_tables()            # 28 tables
 BASIC_TABLES = _tables('basic')       # 125 value-kind tables + 25 len(path)-parity tables
 RICH_TABLES = _tables('rich')         # 265 tables over value kind x key-is-str with <= 2 non-default cells
 FULL_UPTO = 4                         # structures of <= 4 nodes run every basic table, in both tiers
@@ -513,14 +621,29 @@ def programs(tier, n, flags, root=None):
         return out + UNIFORM_TABLES + traced
     if tier == 'quick' or n <= FULL_UPTO:
         out += BASIC_TABLES
+        if not flags['set_members']:
+            out += KEY_TABLES
         if tier == 'quick':
             return out + traced
     cells = None if flags['tuple_cycle'] else cells_of(root)
     if n > FULL_UPTO:
         out += _distinct_on(BASIC_TABLES, cells)
+        if not flags['set_members']:
+            out += _distinct_on(KEY_TABLES, cells)
     if not flags['set_members']:          # the key of a set member is not specified by the statement
         out += _distinct_on(RICH_TABLES, cells)
     return out + traced
+
+
+def twin_programs(flags, root):
+    """Programs run on a twin structure: as for a small structure, tables that are the same program on it run once."""
+    out = [{'kind': 'default'}, {'kind': 'research'}]
+    cells = cells_of(root)
+    out += _distinct_on(BASIC_TABLES, cells)
+    if not flags['set_members']:
+        out.append({'kind': 'echo'})
+        out += _distinct_on(KEY_TABLES, cells)
+    return out
 
 
 # ======================================================================================================
@@ -922,18 +1045,21 @@ def run(ctx):
     def shard(arg):
         _arm()
         n = arg[0]
-        rich = n <= B['rich_keys_upto']
+        twin = n == 'twin'
+        rich = (not twin) and n <= B['rich_keys_upto']
         t = inputs.Tally()
         hangs = 0
         try:
-            for spec in gen_roots(arg, rich):
+            for spec in (gen_twins(arg) if twin else gen_roots(arg, rich)):
                 try:
                     root, flags = build(spec)
                 except Impossible:
                     t.add('terms_not_constructible', 1)
                     continue
                 t.add('structures', 1)
-                if arg[5]:
+                if twin:
+                    t.add('structures_twins', 1)
+                elif arg[5]:
                     t.add('structures_vocabulary1', 1)
                 if flags['tuple_cycle']:
                     t.add('structures_with_cycle_through_tuple', 1)
@@ -943,7 +1069,7 @@ def run(ctx):
                     t.add('structures_with_aliasing', 1)
                 nontrivial = bool(flags['refs'] or flags['nested'])
                 snap = snapshot(root) + (render(root),)
-                for prog in programs(tier, n, flags, root):
+                for prog in (twin_programs(flags, root) if twin else programs(tier, n, flags, root)):
                     case = {'term': spec, 'prog': prog}
                     smp = case if (flags['refs'] and flags['nested'] and prog['kind'] not in ('default', 'research')
                                    and len(t.samples) < 3) else None
@@ -968,7 +1094,7 @@ def run(ctx):
     sizes = range(1, B['N'] + 1)
     rule = ('a case (structure, program) is non-trivial when the structure has a container nested inside the root or at '
             'least one back-reference (shared object or cycle)')
-    shards = shard_list(sizes) + shard_list(range(1, B['N1'] + 1), voc=1)
+    shards = shard_list(sizes) + shard_list(range(1, B['N1'] + 1), voc=1) + [('twin', c) for c in TWIN_CONTEXTS]
     total = inputs.run_shards(ctx, shard, shards, part='remap+research', rule=rule)
 
     def big_shard(spec):
@@ -1029,6 +1155,16 @@ def run(ctx):
         'these structures run the default callbacks, research+get_path, path-echo, the 5 uniform tables and the traced '
         'programs' % (', '.join(map(repr, LOOKALIKE0)), B['rich_keys_upto'],
                       ', '.join(repr(tuple(_unpy(k) for k in pr)) for pr in LOOKALIKE1)))
+    cov['bounds']['key-rewriting programs'] = (
+        'structures without set members also run the %d value-kind tables over True, False, "N" (an int key k becomes ~k: '
+        'list indexes come back descending) and "W" (a scalar item comes back as (value, key)) that rewrite a key in at '
+        'least one cell (container cell: True / "N")' % len(KEY_TABLES))
+    cov['bounds']['twins'] = (
+        'every container term t of <= %d nodes (no back-references) as two distinct but equal objects t, t\' - t\' also '
+        'with its int leaves turned into the equal bools / floats - in the contexts [t, t\'], (t, t\'), {"a": t, "K": t\'}, '
+        '[t, t, t], [t, tbool, tfloat], [t, [t\']], [[t], t\'], {"a": t, 0: (t\',)}, (t, (t\',)); programs: default callbacks, '
+        'research+get_path, path-echo and key-rewriting tables (no set members), the basic tables (one of each class of '
+        'tables that agree on the cells occurring); %d structures' % (TWIN_UPTO, total.extra.get('structures_twins', 0)))
     cov['bounds']['large structures (directed scenarios, NOT an exhaustive space)'] = (
         'chains of d nested containers for d = recursion limit - 1, + 1, 2 x + 1 (%s) over the kinds %s, one list shared '
         'by every level, innermost list pointing back to a mutable root; wide list / tuple / dict / set of %s items '
@@ -1059,6 +1195,9 @@ def run(ctx):
         'functions that keep, drop or rewrite items) and are not explored',
         'scalars are 0, 1, "a" (plus "X", "K" and path tuples produced by the programs); one representative of the other '
         'built-in scalar kinds (None, bool, float, empty / longer str, bytes, complex) on structures of <= %d nodes' % B['N1'],
+        'the key visit returns for an item of a list / tuple does not reposition the item (the recursive rebuild keeps '
+        'every surviving item where it was); equal but distinct containers are separate objects: each is visited under '
+        'its own path and rebuilt from its own leaves',
         "remap's keyword trace is documented as print-only, so the statement's claims about the return value are also "
         'checked with tracing switched on; the printed text itself is not examined',
     ]
